@@ -26,7 +26,7 @@ namespace EPV.C08
 
 noncomputable section
 
-theorem sqrt_units (v X : ℝ) (hv : 0 < v) : Real.sqrt (v ^ 2 * X) = v * Real.sqrt X := by
+theorem epp_sqrt_units (v X : ℝ) (hv : 0 < v) : Real.sqrt (v ^ 2 * X) = v * Real.sqrt X := by
   rw [Real.sqrt_mul (by positivity), Real.sqrt_sq hv.le]
 
 /-! ### model = 'hypo' -/
@@ -73,7 +73,7 @@ theorem hypo_units (p : EPPistonHypo.P) (M L T : ℝ) (hM : 0 < M) (hL : 0 < L) 
     rw [this]; ring
   · first | ring1 | (field_simp; done) | (field_simp; ring1)
   · first | ring1 | (field_simp; done) | (field_simp; ring1)
-  · rw [← sqrt_units v _ hv]
+  · rw [← epp_sqrt_units v _ hv]
     congr 1
     by_cases hd : p.rho0 - p.rho_y = 0
     · have : p.rho0 * rh - p.rho_y * rh = 0 := by rw [← sub_mul, hd, zero_mul]
@@ -142,7 +142,7 @@ theorem ifin_units (p : EPPistonIfin.P) (M L T : ℝ) (hM : 0 < M) (hL : 0 < L) 
     rw [this]; ring
   · first | ring1 | (field_simp; done) | (field_simp; ring1)
   · first | ring1 | (field_simp; done) | (field_simp; ring1)
-  · rw [← sqrt_units v _ hv]
+  · rw [← epp_sqrt_units v _ hv]
     congr 1
     by_cases hd : p.rho0 - p.rho_y = 0
     · have : p.rho0 * rh - p.rho_y * rh = 0 := by rw [← sub_mul, hd, zero_mul]
@@ -211,7 +211,7 @@ theorem fin_units (p : EPPistonFin.P) (M L T : ℝ) (hM : 0 < M) (hL : 0 < L) (h
   · first | ring1 | (field_simp; done) | (field_simp; ring1)
   · first | ring1 | (field_simp; done) | (field_simp; ring1)
   · first | ring1 | (field_simp; done) | (field_simp; ring1)
-  · rw [← sqrt_units v _ hv]
+  · rw [← epp_sqrt_units v _ hv]
     congr 1
     by_cases hd : p.rho0 - p.rho_y = 0
     · have : p.rho0 * rh - p.rho_y * rh = 0 := by rw [← sub_mul, hd, zero_mul]
@@ -239,56 +239,61 @@ theorem fin_consistent_units (p : EPPistonFin.P) (M L T : ℝ) (hM : 0 < M) (hL 
 
 /-! ### `_run`: region selection -/
 
-def runScale (p : EPPistonRun.P) (M L T : ℝ) : EPPistonRun.P :=
+def eppRunScale (p : EPPistonRun.P) (M L T : ℝ) : EPPistonRun.P :=
   ⟨p.e2 * (L / T) ^ 2, p.e_y * (L / T) ^ 2, p.p2 * (M / (L * T ^ 2)), p.p_y * (M / (L * T ^ 2)), p.rho0 * (M / L ^ 3),
    p.rho2 * (M / L ^ 3), p.rho_y * (M / L ^ 3), p.sdev_y * (M / (L * T ^ 2)), p.up * (L / T), p.vel_y * (L / T),
    p.wv_el * (L / T), p.wv_pl * (L / T), p.xmax * L⟩
 
 theorem epprun_units (p : EPPistonRun.P) (x t M L T : ℝ) (hM : 0 < M) (hL : 0 < L) (hT : 0 < T) :
-    EPPistonRun.leaf (runScale p M L T) (L * x) (T * t) = EPPistonRun.leaf p x t ∧
-    EPPistonRun.outcome (runScale p M L T) (L * x) (T * t) = EPPistonRun.outcome p x t ∧
-    EPPistonRun.position (runScale p M L T) (L * x) (T * t) = L * EPPistonRun.position p x t ∧
-    EPPistonRun.density (runScale p M L T) (L * x) (T * t) = M / L ^ 3 * EPPistonRun.density p x t ∧
-    EPPistonRun.pressure (runScale p M L T) (L * x) (T * t) = M / (L * T ^ 2) * EPPistonRun.pressure p x t ∧
-    EPPistonRun.specific_internal_energy (runScale p M L T) (L * x) (T * t)
+    EPPistonRun.leaf (eppRunScale p M L T) (L * x) (T * t) = EPPistonRun.leaf p x t ∧
+    EPPistonRun.outcome (eppRunScale p M L T) (L * x) (T * t) = EPPistonRun.outcome p x t ∧
+    EPPistonRun.position (eppRunScale p M L T) (L * x) (T * t) = L * EPPistonRun.position p x t ∧
+    EPPistonRun.density (eppRunScale p M L T) (L * x) (T * t) = M / L ^ 3 * EPPistonRun.density p x t ∧
+    EPPistonRun.pressure (eppRunScale p M L T) (L * x) (T * t) = M / (L * T ^ 2) * EPPistonRun.pressure p x t ∧
+    EPPistonRun.specific_internal_energy (eppRunScale p M L T) (L * x) (T * t)
       = (L / T) ^ 2 * EPPistonRun.specific_internal_energy p x t ∧
-    EPPistonRun.velocity (runScale p M L T) (L * x) (T * t) = L / T * EPPistonRun.velocity p x t ∧
-    EPPistonRun.deviatoric_stress (runScale p M L T) (L * x) (T * t)
+    EPPistonRun.velocity (eppRunScale p M L T) (L * x) (T * t) = L / T * EPPistonRun.velocity p x t ∧
+    EPPistonRun.deviatoric_stress (eppRunScale p M L T) (L * x) (T * t)
       = M / (L * T ^ 2) * EPPistonRun.deviatoric_stress p x t := by
-  have e0 : EPPistonRun.c0 (runScale p M L T) (L * x) (T * t) ↔ EPPistonRun.c0 p x t := by
-    simp only [epv_cond, runScale]
+  have e0 : EPPistonRun.c0 (eppRunScale p M L T) (L * x) (T * t) ↔ EPPistonRun.c0 p x t := by
+    simp only [epv_cond, eppRunScale]
     have : p.xmax * L / (p.wv_el * (L / T)) = T * (p.xmax / p.wv_el) := by
       by_cases h : p.wv_el = 0
       · simp [h]
       · field_simp
     rw [this, mul_lt_mul_iff_right₀ hT]
-  have e1 : EPPistonRun.c1 (runScale p M L T) (L * x) (T * t) ↔ EPPistonRun.c1 p x t := by
-    simp only [epv_cond, runScale]
+  have e1 : EPPistonRun.c1 (eppRunScale p M L T) (L * x) (T * t) ↔ EPPistonRun.c1 p x t := by
+    simp only [epv_cond, eppRunScale]
     rw [show p.wv_pl * (L / T) * (T * t) = L * (p.wv_pl * t) by field_simp, mul_lt_mul_iff_right₀ hL]
-  have e2 : EPPistonRun.c2 (runScale p M L T) (L * x) (T * t) ↔ EPPistonRun.c2 p x t := by
-    simp only [epv_cond, runScale]
+  have e2 : EPPistonRun.c2 (eppRunScale p M L T) (L * x) (T * t) ↔ EPPistonRun.c2 p x t := by
+    simp only [epv_cond, eppRunScale]
     rw [show p.wv_pl * (L / T) * (T * t) = L * (p.wv_pl * t) by field_simp, mul_lt_mul_iff_right₀ hL]
-  have e3 : EPPistonRun.c3 (runScale p M L T) (L * x) (T * t) ↔ EPPistonRun.c3 p x t := by
-    simp only [epv_cond, runScale]
+  have e3 : EPPistonRun.c3 (eppRunScale p M L T) (L * x) (T * t) ↔ EPPistonRun.c3 p x t := by
+    simp only [epv_cond, eppRunScale]
     rw [show p.wv_el * (L / T) * (T * t) = L * (p.wv_el * t) by field_simp, mul_lt_mul_iff_right₀ hL]
   simp only [epv_tree]
   by_cases h0 : EPPistonRun.c0 p x t
   · simp only [if_pos h0, if_pos (e0.mpr h0)]
-    refine ⟨rfl, rfl, ?_, ?_, ?_, ?_, ?_, ?_⟩ <;> ring1
+    refine ⟨trivial, trivial, ?_, ?_, ?_, ?_, ?_, ?_⟩ <;> ring1
   simp only [if_neg h0, if_neg (mt e0.mp h0)]
   by_cases h1 : EPPistonRun.c1 p x t
   · simp only [if_pos h1, if_pos (e1.mpr h1)]
-    refine ⟨rfl, rfl, ?_, ?_, ?_, ?_, ?_, ?_⟩ <;> simp only [epv_leaf, runScale] <;> ring1
+    refine ⟨trivial, trivial, ?_, ?_, ?_, ?_, ?_, ?_⟩ <;> simp only [epv_leaf, eppRunScale] <;> ring1
   simp only [if_neg h1, if_neg (mt e1.mp h1)]
   by_cases h2 : EPPistonRun.c2 p x t
   · simp only [if_pos h2, if_pos (e2.mpr h2)]
     by_cases h3 : EPPistonRun.c3 p x t
     · simp only [if_pos h3, if_pos (e3.mpr h3)]
-      refine ⟨rfl, rfl, ?_, ?_, ?_, ?_, ?_, ?_⟩ <;> simp only [epv_leaf, runScale] <;> ring1
+      refine ⟨trivial, trivial, ?_, ?_, ?_, ?_, ?_, ?_⟩ <;> simp only [epv_leaf, eppRunScale] <;> ring1
     · simp only [if_neg h3, if_neg (mt e3.mp h3)]
-      refine ⟨rfl, rfl, ?_, ?_, ?_, ?_, ?_, ?_⟩ <;> simp only [epv_leaf, runScale] <;> ring1
+      refine ⟨trivial, trivial, ?_, ?_, ?_, ?_, ?_, ?_⟩ <;> simp only [epv_leaf, eppRunScale] <;> ring1
   · simp only [if_neg h2, if_neg (mt e2.mp h2)]
-    refine ⟨rfl, rfl, ?_, ?_, ?_, ?_, ?_, ?_⟩ <;> simp only [epv_leaf, runScale] <;> ring1
+    refine ⟨trivial, trivial, ?_, ?_, ?_, ?_, ?_, ?_⟩ <;> simp only [epv_leaf, eppRunScale] <;> ring1
+
+/-- non-vacuity: default problem, cgs → SI-like factors -/
+example : ∃ (p : EPPistonIfin.P) (M L T : ℝ), 0 < M ∧ 0 < L ∧ 0 < T ∧ 0 < p.G ∧ 0 < p.Y ∧ 0 < p.rho0 ∧ 0 ≤ p.up :=
+  ⟨⟨143/500, 13/5000, 533/1000, 0, 2, 0, 0, 279/100, 0, 0, 67/50, 0, 1/100, 0, 0, 0⟩, 1000, 100, 1000000,
+    by norm_num, by norm_num, by norm_num, by norm_num, by norm_num, by norm_num, by norm_num⟩
 
 end
 
